@@ -17,11 +17,13 @@ pub struct LongRun {
     pub regimes: Vec<Regime>,
     pub seglen: usize,
     pub m: f64,
+    /// feed bars even to indicators that have a scalar path (their bar path reads close / low / high)
+    pub force_bars: bool,
 }
 
 impl LongRun {
     pub fn descr(&self) -> String {
-        format!("{} regimes={:?} seglen={} m={}", self.cfg.descr(), self.regimes.iter().map(|r| r.name()).collect::<Vec<_>>(), self.seglen, self.m)
+        format!("{}{} regimes={:?} seglen={} m={}", self.cfg.descr(), if self.force_bars { " (fed bars)" } else { "" }, self.regimes.iter().map(|r| r.name()).collect::<Vec<_>>(), self.seglen, self.m)
     }
 }
 
@@ -30,7 +32,7 @@ impl LongRun {
 /// segment boundaries and at the end.
 pub fn long_run(prop: &str, run: &LongRun, seed: u64, stride: usize, out: &mut JobOut) {
     let cfg = run.cfg;
-    let bars = !cfg.kind.has_scalar();
+    let bars = run.force_bars || !cfg.kind.has_scalar();
     let w = cfg.kind.window(&cfg).expect("windowed subject");
     let total = run.regimes.len() * run.seglen;
     let volumes = [1.0, 3.0, 0.0, 0.5, 2.0, 0.0, 7.0];
@@ -183,7 +185,11 @@ pub fn run(ctx: &Ctx) -> CheckResult {
                         // full 125 orderings for small periods; every 5th for the others
                         continue;
                     }
-                    runs.push(LongRun { cfg, regimes: ord.clone(), seglen: tot / k, m });
+                    runs.push(LongRun { cfg, regimes: ord.clone(), seglen: tot / k, m, force_bars: false });
+                    // the bar path of the close-/low-/high-reading indicators on every 4th ordering
+                    if oi % 4 == 1 && cfg.kind.has_scalar() && n <= 14 {
+                        runs.push(LongRun { cfg, regimes: ord.clone(), seglen: tot / k, m, force_bars: true });
+                    }
                 }
             }
         }
@@ -196,7 +202,7 @@ pub fn run(ctx: &Ctx) -> CheckResult {
                     if matches!(cfg.kind, Kind::Mad | Kind::Cci) {
                         continue;
                     }
-                    runs.push(LongRun { cfg, regimes: vec![*r], seglen: if th { 2_000_000 } else { 250_000 }, m });
+                    runs.push(LongRun { cfg, regimes: vec![*r], seglen: if th { 2_000_000 } else { 250_000 }, m, force_bars: false });
                 }
             }
         }
@@ -222,7 +228,7 @@ pub fn run(ctx: &Ctx) -> CheckResult {
     res.absorb(merge_jobs(outs));
     // determinism gate: one run twice, identical digest
     if !res.out.failed() {
-        let probe = LongRun { cfg: Cfg::p1(Kind::Sd, 5), regimes: vec![Regime::Walk, Regime::Saw], seglen: 5000, m: 0.7 };
+        let probe = LongRun { cfg: Cfg::p1(Kind::Sd, 5), regimes: vec![Regime::Walk, Regime::Saw], seglen: 5000, m: 0.7, force_bars: false };
         let dig = |_: ()| {
             let mut g = Gen::new(probe.m, ctx.seed);
             let mut s = make(&probe.cfg);
@@ -239,7 +245,7 @@ pub fn run(ctx: &Ctx) -> CheckResult {
     }
     res.exhaustive = false;
     res.rule = "case = one long generated stream (period x band base x ordering of regime segments) fed to the real indicator without reset; at every 997th step, around every segment boundary and at the end the output is compared with a from-scratch double-double evaluation of the harness's own copy of the window at tolerance tau(t)*M (variances *M^2; CCI/MFI *c, gated); MIN/MAX exact; distinct by construction; non-trivial = applicable comparison".into();
-    res.bounds = format!("periods {periods:?} x band bases {bases:?} x all {}^{k} orderings of {{extremes, saw-tooth, LCG walk, plateau, spikes, stair (price rests every other step), short saw-tooth 1.1+(t mod 7)*123.456, exact triangle c,c+d,c,c-d}} (every 5th ordering for periods > 14 in thorough; O(n)-per-step subjects shortened), total length {total} per run; plus single-regime runs of 250k / 2M steps for periods 2 and 3; subjects SMA, WMA, SD, BB, MAD, CCI, MFI, MIN, MAX", set.len());
+    res.bounds = format!("periods {periods:?} x band bases {bases:?} x all {}^{k} orderings of {{extremes, saw-tooth, LCG walk, plateau, spikes, stair (price rests every other step), short saw-tooth 1.1+(t mod 7)*123.456, exact triangle c,c+d,c,c-d}} (every 5th ordering for periods > 14 in thorough; O(n)-per-step subjects shortened), total length {total} per run; plus single-regime runs of 250k / 2M steps for periods 2 and 3; subjects SMA, WMA, SD, BB, MAD, CCI, MFI, MIN, MAX (every 4th ordering also through the bar path of the close-/low-/high-reading ones, periods <= 14)", set.len());
     res.assumptions = vec![
         "systematically enumerated family of long streams, not all streams: regime orderings, periods and scales are exhaustive, regime contents follow fixed generators (the LCG walk is seeded by VERIF_SEED)".into(),
     ];
